@@ -424,6 +424,21 @@ func RunC16(t *testing.T, rc *core.RunCtx) {
 		}
 	} else {
 		_ = sizeUnknown
+		// Length and index agreement do not depend on any size being
+		// computable: they must hold after failed operations as well.
+		seen := map[int]bool{}
+		for _, k := range listKeys {
+			if seen[k] {
+				rc.Failf("duplicate-key-resident", facts, "key k%d is resident twice: %v (index %v)", k, snap, idx)
+			}
+			seen[k] = true
+			if _, ok := idx[k]; !ok {
+				rc.Failf("len-disagrees", facts, "resident key k%d is not in the index (%v / %v)", k, snap, idx)
+			}
+		}
+		if gotLen != len(listKeys) || gotLen != len(idx) {
+			rc.Failf("len-disagrees", facts, "Len()=%d, list has %d entries, index has %d (%v / %v)", gotLen, len(listKeys), len(idx), snap, idx)
+		}
 		// Configuration B: "an operation that fails leaves the cache
 		// usable": a fresh small value can be stored and read back.
 		fresh := &val{id: 999999, size: 1, failFrom: -1, calls: new(int)}
